@@ -37,6 +37,7 @@ class History:
         self.be = rt.MemBackend({'config': self.U.config}, delays=delays)
         self.concurrent = concurrent
         self.fresh = fresh_objects
+        self.fresh_destructive = False     # destructive commands issued by another client object of the same user (like a CLI call)
         self.repos = {u: fresh_repo(self.U, u, self.be, concurrent=concurrent) for u in USERS}
         self.snaps = []       # dict(name, owner, files{rel: bytes}, alive)
         self.loop = rt.MiniLoop()
@@ -76,12 +77,14 @@ class History:
         if not mine:
             return None
         s = mine[-1]
-        self.run(self.repo(u).delete_snapshots([s['name']], confirm=False))
+        r = fresh_repo(self.U, u, self.be, concurrent=self.concurrent) if self.fresh_destructive else self.repo(u)
+        self.run(r.delete_snapshots([s['name']], confirm=False))
         s['alive'] = False
         return s
 
     def clean(self, u):
-        self.run(self.repo(u).clean())
+        r = fresh_repo(self.U, u, self.be, concurrent=self.concurrent) if self.fresh_destructive else self.repo(u)
+        self.run(r.clean())
 
     def verify_restorable(self):
         """Every snapshot still listed restores completely with its owner's key to exactly the captured bytes."""
@@ -117,6 +120,7 @@ OPS = [('snap', u, fs) for u in USERS for fs in range(3)] + [('del', u, None) fo
 def run_history(codes, encrypted=True, concurrent=2, delays=None, fresh_objects=False):
     with world.scratch('hist') as d:
         h = History(d, encrypted=encrypted, concurrent=concurrent, delays=delays, fresh_objects=fresh_objects)
+        h.fresh_destructive = sum(codes) % 2 == 1
         trace = []
         for c in codes:
             op, u, fs = OPS[c]
@@ -269,6 +273,48 @@ def e_dedup_hist(k: int) -> bool:
             if ok and h.be.counts['upload_stream'] != before:
                 ok, msg = False, 'repeating the first snapshot uploaded chunk payload'
             tick('e_dedup_hist', [OPS[c0], OPS[c1], OPS[c2]])
+            if not ok:
+                _say(OPS[c0], OPS[c1], OPS[c2], msg)
+            return ok
+
+
+def e_dedup_ops(k: int) -> bool:
+    """Histories of snapshots, deletes and cleans (long-lived clients for snapshots, another client object of the same user
+    for destructive commands on odd vectors): every chunk a live snapshot references is stored, and after a clean by each
+    family the chunk objects are precisely the distinct chunks referenced.
+    pre: shard(15 * 15 * 15)[0] <= k < shard(15 * 15 * 15)[1] and k % 2 == 0
+    post: _
+    """
+    c0, c1, c2 = digits(k, [15, 15, 15])
+    with NoTracing():
+        with world.scratch('c07o') as d:
+            h = History(d, encrypted=True)
+            h.fresh_destructive = (c0 + c1 + c2) % 2 == 1
+            ok, msg = True, ''
+            try:
+                for c in (0, c0, c1, c2, 0):
+                    op, u, fs = OPS[c]
+                    if op == 'snap':
+                        h.snapshot(u, fs)
+                    elif op == 'del':
+                        h.delete_latest(u)
+                    else:
+                        h.clean(u)
+            except Exception as e:
+                ok, msg = False, f'command raised {e!r}'
+            if ok:
+                alive = [s for s in h.snaps if s['alive']]
+                for s in alive:
+                    for dg in s['chunks']:
+                        if h.repos[s['owner']]._chunk_digest_to_location(dg) not in h.be.objs:
+                            ok, msg = False, f'chunk referenced by live snapshot of {s["owner"]} is not stored'
+                fresh_repo(h.U, 'A', h.be) and h.run(fresh_repo(h.U, 'A', h.be).clean())
+                h.run(fresh_repo(h.U, 'C', h.be).clean())
+                want = {h.repos[s['owner']]._chunk_digest_to_location(dg) for s in alive for dg in s['chunks']}
+                have = {k2 for k2 in h.be.objs if k2.startswith('data/')}
+                if ok and have != want:
+                    ok, msg = False, f'{len(have)} chunk objects stored, {len(want)} distinct chunks referenced'
+            tick('e_dedup_ops', [OPS[c0], OPS[c1], OPS[c2]])
             if not ok:
                 _say(OPS[c0], OPS[c1], OPS[c2], msg)
             return ok
